@@ -359,6 +359,12 @@ theorem policy_monotone_nullfail (fl : Flags) (chk : Checker) (scriptSig scriptP
     verifyScript { fl with nullfail := false } chk scriptSig scriptPubKey wit = .ok () :=
   Lemmas.verifyScript_mono Lemmas.nullfail_tightening fl chk scriptSig scriptPubKey wit () h
 
+/-- MINIMALIF (segwit v0 policy; the tapscript rule is unconditional and untouched). -/
+theorem policy_monotone_minimalif (fl : Flags) (chk : Checker) (scriptSig scriptPubKey : Bytes)
+    (wit : List Bytes) (h : verifyScript { fl with minimalif := true } chk scriptSig scriptPubKey wit = .ok ()) :
+    verifyScript { fl with minimalif := false } chk scriptSig scriptPubKey wit = .ok () :=
+  Lemmas.verifyScript_mono Lemmas.minimalif_tightening fl chk scriptSig scriptPubKey wit () h
+
 /-- the hypotheses of the monotonicity theorems are satisfiable: a spend that verifies under all six flags -/
 example : ∃ chk : Checker,
     verifyScript { cltv := true, csv := true, nulldummy := true, dersig := true, witness := true, taproot := true }
